@@ -26,6 +26,35 @@ P2 (index side).
     the scan reaches every file is not proved here — it does not when the resume point of an earlier
     interrupted cycle has been unlinked in the meantime, see the finding below.)
 
+P1 (primary side).
+  * `C11_primary_file_released`: a reachable multihash state, flushed (`pnext = []`); `f` an existing
+    non-current primary file (shorter than 2^31 bytes) that no index entry points into (`NoEntryIn`).
+    ONE complete primary GC cycle (`pgc lowUse none`, every threshold) leaves `f` unlinked or with length
+    zero; and unlinked when `f` is the header's first file and the cycle visits it (`WillVisit`).
+    One cycle is enough in every case, because the repaired cycle (D28) makes TWO hand-over passes — a
+    hand-over file left by an interrupted cycle is applied by the first, what was recorded since by the
+    second — and removes every affected file from the visited set before the loop over the files: no
+    `decide` example "1 cycle is not enough" exists for releasing the bytes.  What can take arbitrarily
+    long is the UNLINK (see the remark below).
+    Two hypotheses on the reached state are ASSUMED, not derived from reachability (both are decidable
+    and checked by `decide` on the example):
+      `Covered s`        every record span of every closed file is named by an index entry or recorded on
+                         the freelist (file, hand-over file `.gc`, pool) — "superseded ⇒ recorded".  C13
+                         proves the recording along C01 histories (`FInv`) and C13G "nothing current is
+                         recorded" along GC histories; the converse inclusion needed here (every span not
+                         current IS recorded, also after GC cycles have consumed and relocated) is a
+                         further invariant over all calls and was not threaded through.
+      `VisitedStable s f` a visited file without a record span is empty (what reapRecords leaves behind).
+    Everything else comes from reachability (C04's `GInv`): the hand-over passes apply every recorded
+    entry exactly (`Sth/Lemmas/C11Pri1.lean`, `C11Pri2.lean`), relocation out of the files visited
+    before `f` cannot fail (after the passes every record span left is an index entry's record), the
+    loop reaches `f` (`C11Pri4.lean`), and reapRecords truncates an all-deleted file to length zero.
+  * REMARK (conceded by the property, made precise here): a file that was released while it was NOT the
+    oldest stays in the visited set as a zero-length file; when the files before it are unlinked later it
+    becomes the header's first file, but the loop skips visited files, so it is never unlinked and the
+    first file never advances past it — every later file can only be truncated to length zero — until a
+    reopen clears the visited set.  `exOps11p` below shows it (checked by `decide`).
+
 FINDING (index GC, stale resume point; model = real code, store/index/gc.go).  A cycle cut short by the
 time limit records `gcResumeAt = n`.  If the files up to `n` become free, the next cycle's
 truncateFreeFiles unlinks them and advances FirstFile past `n`, and the reap loop then starts at the
@@ -36,8 +65,11 @@ an error is logged.  `exOps11r` below is a concrete run (checked by `decide`).
 -/
 import Sth.Lemmas.C11Reach
 import Sth.Lemmas.C11IdxReap
+import Sth.Lemmas.C11Pri6
 
 namespace Sth
+
+open C11
 
 /-- P2.  In every reachable state, one complete index GC cycle with the free-file scan releases every
     non-current index file no bucket points into; it unlinks it when every file from the header's
@@ -128,5 +160,65 @@ example : ∃ s, initS exCfg11i = some s ∧
      (r.m.gcResume, r.d.ihdr.map IdxHeader.first, (indexGC r.m r.d true none).1,
        (indexGC r.m r.d true none).2.2.1.ihdr.map IdxHeader.first)) =
       (some 1, some 1, GcOut.err, some 4) := ⟨_, rfl, by decide⟩
+
+/-! ### P1: a primary file without current records is released by one complete cycle -/
+
+/-- P1.  See the header for the hypotheses `Covered` and `VisitedStable` (assumed on the reached
+    state, decidable).  `hb` is C04's counter bound for the history followed by the cycle. -/
+theorem C11_primary_file_released (c : Cfg) (hc : c.Legal) (hmh : c.kind = .mh) (ops : List SOp)
+    (hk : KeysOK c.kind ops) (hs : SizesOK ops) (s0 : SState) (hi : initS c = some s0) (lowUse : Nat)
+    (hb : GcCountersOK s0 (ops ++ [.pgc lowUse none])) (f : Nat) (file : Bytes)
+    (hfile : (runS s0 ops).1.d.pfiles.get? f = some file) (hf : f < (runS s0 ops).1.m.pfileNum)
+    (hlen : file.length < two31) (hflushed : (runS s0 ops).1.m.pnext = [])
+    (hcov : Covered (runS s0 ops).1) (hno : NoEntryIn (runS s0 ops).1 f)
+    (hvis : VisitedStable (runS s0 ops).1 f) :
+    let s := (runS s0 ops).1
+    let s' := (stepS s (.pgc lowUse none)).1
+    Released s'.d.pfiles f ∧
+    (s.d.phdr.map PriHeader.first = some f → WillVisit s f → s'.d.pfiles.get? f = none) :=
+  primary_file_released c hc hmh ops hk hs s0 hi lowUse hb f file hfile hf hlen hflushed hcov hno hvis
+
+/-! Non-vacuity (40-byte primary files).  After `exOps11p` files 0, 1 are closed and 2 is current; every
+    key stored in file 1 has been overwritten, file 0 still holds the record of `exKa`.  One cycle
+    truncates file 1 to length zero (it is not the oldest, so it stays) and cuts the deleted tail off
+    file 0 (42 → 13 bytes). -/
+
+def exCfg11p : Cfg := { kind := .mh, bits := 8, ifs := 64, pfs := 40, imm := false }
+def exKd : Bytes := [18, 6, 3, 2, 3, 4, 5, 8]
+def exKe : Bytes := [18, 6, 1, 2, 3, 4, 5, 7]
+def exOps11p : List SOp :=
+  [.put exKa [7], .put exKe [1, 2, 3], .put exKc [4], .flush [], .put exKd [5, 5],
+   .put exKe [3, 3, 3, 3], .put exKc [6, 6], .flush [], .put exKd [7, 7], .put exKe [1], .put exKc [1],
+   .flush []]
+
+example : exCfg11p.Legal := by decide
+example : KeysOK exCfg11p.kind exOps11p ∧ SizesOK exOps11p := by
+  refine ⟨?_, ?_⟩
+  · unfold KeysOK; decide
+  · unfold SizesOK; decide
+
+/-- all hypotheses of P1 hold for file 1 (and `NoEntryIn` fails for file 0) -/
+example : ∃ s, initS exCfg11p = some s ∧ GcCountersOK s (exOps11p ++ [.pgc 85 none]) ∧
+    (let r := (runS s exOps11p).1
+     r.m.pfileNum = 2 ∧ r.m.pnext = [] ∧ (r.d.pfiles.get? 1).map List.length = some 45 ∧
+     Covered r ∧ NoEntryIn r 1 ∧ ¬ NoEntryIn r 0 ∧ VisitedStable r 1) := ⟨_, rfl, by decide⟩
+
+/-- the cycle: file 1 has length zero, file 0 lost its deleted tail, the first file is still 0 -/
+example : ∃ s, initS exCfg11p = some s ∧
+    (let r := (runS s (exOps11p ++ [.pgc 85 none])).1
+     (r.d.phdr.map PriHeader.first, r.d.pfiles.map (fun p => (p.1, p.2.length)), r.m.visited)) =
+      (some 0, [(0, 13), (1, 0), (2, 41)], [0, 1]) := ⟨_, rfl, by decide⟩
+
+/-- the remark: once file 0 is unlinked too, the zero-length visited file 1 is the first file and is
+    never unlinked by further cycles; a reopen (which clears the visited set) lets the next cycle unlink
+    it -/
+example : ∃ s, initS exCfg11p = some s ∧
+    (let r2 := (runS s (exOps11p ++ [.pgc 85 none, .rm exKa, .flush [], .pgc 85 none, .pgc 85 none,
+        .pgc 85 none])).1
+     let r3 := (runS s (exOps11p ++ [.pgc 85 none, .rm exKa, .flush [], .pgc 85 none, .reopen [] true,
+        .pgc 85 none])).1
+     (r2.d.phdr.map PriHeader.first, r2.d.pfiles.map (fun p => (p.1, p.2.length)),
+      r3.d.phdr.map PriHeader.first, r3.d.pfiles.map (fun p => (p.1, p.2.length)))) =
+      (some 1, [(1, 0), (2, 41)], some 2, [(2, 41)]) := ⟨_, rfl, by decide⟩
 
 end Sth
